@@ -228,24 +228,7 @@ func checkC20CreateAgree(c *Ctx) {
 				if !in && !inElse {
 					return true
 				}
-				bf := boolTable(info, ifs.Cond)
-				for name, e := range bf.exprs {
-					if se, ok := unparen(e).(*ast.SelectorExpr); ok {
-						if v, _ := info.Uses[se.Sel].(*types.Var); v != nil && flagVars[v] {
-							// polarity of the flag on this branch
-							wantT, _ := bf.forAll(map[string]bool{name: true}, !in)
-							wantF, _ := bf.forAll(map[string]bool{name: false}, !in)
-							switch {
-							case wantT && !wantF:
-								flags = append(flags, "!"+v.Name())
-							case wantF && !wantT:
-								flags = append(flags, v.Name())
-							default:
-								flags = append(flags, "?"+v.Name())
-							}
-						}
-					}
-				}
+				flags = append(flags, flagsRequired(fs, info, flagVars, ifs.Cond, in, 0)...)
 				return true
 			})
 		}
@@ -342,5 +325,47 @@ func assignedLocal(f *FuncSrc, call *ast.CallExpr) *ast.Ident {
 		}
 		return true
 	})
+	return out
+}
+
+
+// flagsRequired: which configuration flags must be set / unset for expr to evaluate to `want` (boolean locals
+// with a single definition are looked through).
+func flagsRequired(f *FuncSrc, info *types.Info, flagVars map[*types.Var]bool, expr ast.Expr, want bool, depth int) []string {
+	var out []string
+	if depth > 3 {
+		return out
+	}
+	bf := boolTable(info, expr)
+	for name, e := range bf.exprs {
+		// what value must this atom have for expr == want?
+		tOK, _ := bf.forAll(map[string]bool{name: true}, !want)  // atom true  => expr != want always
+		fOK, _ := bf.forAll(map[string]bool{name: false}, !want) // atom false => expr != want always
+		switch x := unparen(e).(type) {
+		case *ast.SelectorExpr:
+			if v, _ := info.Uses[x.Sel].(*types.Var); v != nil && flagVars[v] {
+				switch {
+				case tOK && !fOK:
+					out = append(out, "!"+v.Name())
+				case fOK && !tOK:
+					out = append(out, v.Name())
+				default:
+					out = append(out, "?"+v.Name())
+				}
+			}
+		case *ast.Ident:
+			if !isBoolType(info, x) {
+				continue
+			}
+			if ds := localDefs(f, x.Name, x.Pos()); len(ds) == 1 && ds[0].rhs != nil {
+				switch {
+				case tOK && !fOK: // the local must be false
+					out = append(out, flagsRequired(f, info, flagVars, ds[0].rhs, false, depth+1)...)
+				case fOK && !tOK: // the local must be true
+					out = append(out, flagsRequired(f, info, flagVars, ds[0].rhs, true, depth+1)...)
+				}
+			}
+		}
+	}
 	return out
 }
